@@ -197,6 +197,10 @@ def handle (line : String) : String :=
             | .reject _ => if rerr || stat != "0" then ("ok", "-") else ("bad", "accepted-invalid")
             | .accept ws sh pc so =>
               if stat = "97" then ("bad", "livelock")
+              else if pc && re.all (fun e => e.2 < 1000 || e.2 = 2030) && re.any (fun e => e.2 = 2030) then
+                -- a POPV names a constant: the manual does not say what then happens; "a constant can never change" holds
+                -- when the statement is refused ("constants cannot be redefined as variables") as well as when it were ignored
+                ("ok", "-")
               else if rerr || stat != "0" then
                 let dollar := re.all (fun e => e.2 < 1000 || (e.2 = 1000 && ((ops.getD (e.1 - l0 - 1) (.use [])) |> isDollarDef)))
                 ("bad", s!"rejected-valid dollar={if dollar then 1 else 0}")
